@@ -597,6 +597,12 @@ fn invalid_reference(s: &str, has_doctype: bool) -> Option<String> {
     None
 }
 
+/// The reader's reference check, for the verification harness.
+#[cfg(feature = "verif-hooks")]
+pub(crate) fn verif_invalid_reference(s: &str, has_doctype: bool) -> Option<String> {
+    invalid_reference(s, has_doctype)
+}
+
 /// `Name` of XML 1.0 (fifth edition).
 fn is_entity_name(s: &str) -> bool {
     let start = |c: char| {
